@@ -491,4 +491,3 @@ Proof.
 Qed.
 End AllM.
 
-Print Assumptions free_gf_diag_allM.
